@@ -335,6 +335,11 @@ impl DictMachine {
                 for i in 0..80 {
                     let mut s = format!("{i:04}").into_bytes();
                     s.resize(1000, b'r');
+                    train(&mut self.pool[0], &[(&s, 3)]);
+                }
+                // shorter, less frequent strings ranked after the big ones
+                for i in 0..30 {
+                    let s = format!("s{i:02}").into_bytes();
                     train(&mut self.pool[0], &[(&s, 2)]);
                 }
                 let _ = self.merge(1);
